@@ -69,11 +69,17 @@ def gen(tier, rng):
             lines[k] = 'PRINT "#%d";:%s' % (k, body)
         lines[nums[-1]] = 'PRINT "#%d";:RETURN' % nums[-1]
         faults = []
-        for _ in range(rng.choice([1, 1, 1, 2])):
+        nf = rng.choice([1, 1, 1, 2])
+        mixed = nf == 2 and rng.random() < 0.5      # one fault of the compile pass together with one of the link pass
+        for fi in range(nf):
             k = rng.choice(nums[:-1])
             if any(f[0] == k for f in faults):
                 continue
             stmt, kind, under = fault(rng, nums)
+            for _ in range(40):
+                if not mixed or (kind == "syntax") == (fi == 0):
+                    break
+                stmt, kind, under = fault(rng, nums)
             if kind in ("while", "wend") and any(f[1] in ("while", "wend") for f in faults):
                 continue          # a WHILE and a WEND would pair up and be no fault at all
             pre = rng.choice(PREFIXES)
@@ -95,6 +101,18 @@ def gen(tier, rng):
                    ["Z=1:ON Z GOTO %d" % rng.choice(nums)], ["RUN", "CONT"], ["Z=1:ON Z GOSUB %d" % nums[0]]]
         entry = rng.choice(entries)
         calls = ["R5000"] + [sess.E(l) for l in prog]
+        # the very first direct statement after the edits may be one that does not enter the program (the program is compiled and
+        # linked in front of every direct line; what that pass leaves behind must not spill into the direct line), optionally
+        # behind a direct line that itself fails to compile while holding a jump
+        first = ""
+        if rng.random() < 0.45:
+            if rng.random() < 0.35:
+                bad = rng.choice(["DIM A:GOTO %d" % nums[0], "GOSUB %d:PRINT )" % nums[-1], "A=:GOTO 7", "WHILE 1:X=1+"])
+                calls += [sess.E(bad), "R5000"]
+                first += "\n#bad direct line: " + bad
+            fd = rng.choice(['PRINT "@first"', 'PRINT 1:PRINT 2:PRINT "@first"', 'FOR I9=1 TO 2:NEXT:PRINT "@first"', 'I9=1:IF I9 THEN PRINT "@first"'])
+            calls += [sess.E(fd), "R5000"]
+            first += "\n#first: " + fd
         for e in entry:
             calls += [sess.E(e), "R5000"]
         # a direct statement that does not enter the program: straight-line, branching and looping ones
@@ -102,7 +120,7 @@ def gen(tier, rng):
                              'FOR I9=1 TO 3:NEXT:PRINT "@ok"', 'IF 0 THEN PRINT "no" ELSE PRINT "@ok"', 'I9=1:IF I9 THEN PRINT "@ok"',
                              'WHILE 0:WEND:PRINT "@ok"', 'FOR I9=1 TO 2:WHILE 0:WEND:NEXT I9:PRINT "@ok"'])
         calls += [sess.E("LIST"), "R5000", sess.E(direct), "R5000"]
-        cases.append(Case(sess.session(calls), sig="\n".join(prog) + "\n#enter: " + "; ".join(entry) + "\n#then: " + direct, tag="faulty",
+        cases.append(Case(sess.session(calls), sig="\n".join(prog) + first + "\n#enter: " + "; ".join(entry) + "\n#then: " + direct, tag="faulty",
                           meta=("faulty", faults, nums)))
     # a correct program stops inside itself; a direct DELETE then removes a line other lines refer to (or the WEND of an open
     # WHILE), so the program now has a compile-time error; whatever is typed next to resume it -- CONT, RETURN, NEXT -- must
@@ -143,7 +161,7 @@ def monitor(case, r):
     text = transcript.printed_text(ev)
     if "#" in text:
         return "executed: a program with compile-time errors printed %r\n%s" % (text[:80], case.sig)
-    if "@ok" not in text:
+    if "@ok" not in text or ("#first: " in case.sig and "@first" not in text):
         return "direct: a direct statement that does not enter the program must still work\n%s\n%s" % (case.sig, sess.decode_events(r)[-300:])
     errs = [e for e in ev if e.startswith("E:[")]
     if not errs:
